@@ -122,6 +122,9 @@ func TestVerif_C16(t *testing.T) {
 		}
 		states = append(states, st)
 	}
+	// a dataset with an unlimited maximum (what a Resize may be asked for differs from /r's)
+	mkU := vfOp{Op: "mkds", Path: "/u", Type: "f64", Dims: []uint64{4}, Chunk: []uint64{2}, Max: []uint64{Unlimited}}
+	states = append(states, []vfOp{mkU}, []vfOp{mkX, mkU, {Op: "write", Path: "/u", Pat: 1}})
 	// root name heap filled so that exactly the follow-up name "new" still fits (found by a dry
 	// run): a refused call that leaves even one byte behind in that heap makes the follow-up fail
 	heapExact := -1
@@ -194,6 +197,8 @@ func TestVerif_C16(t *testing.T) {
 		{{Op: "attr", Path: "/r", Name: "z", Value: "i32b"}, {Op: "write", Path: "/r", Pat: 2}},
 		{{Op: "resize", Path: "/r", Dims: []uint64{6}}, {Op: "write", Path: "/r", Pat: 2}},
 		{{Op: "attr", Path: "/x", Name: "z", Value: "i32b"}, {Op: "delattr", Path: "/x", Name: "z"}},
+		{{Op: "write", Path: "/u", Pat: 2}},
+		{{Op: "resize", Path: "/u", Dims: []uint64{6}}, {Op: "write", Path: "/u", Pat: 2}},
 	}
 	// the failing-call catalogue, aimed at each plausible object
 	bads := func(h []vfOp) []vfOp {
@@ -214,12 +219,12 @@ func TestVerif_C16(t *testing.T) {
 				out = append(out, vfOp{Op: "bad", Bad: b})
 				continue
 			}
-			for _, p := range []string{"/x", "/r", "/g"} {
+			for _, p := range []string{"/x", "/r", "/g", "/u"} {
 				k := has[p]
 				if k == "" || (needDS && k != "dataset") {
 					continue
 				}
-				if b == "resize-beyond-max" && p != "/r" || b == "resize-not-resizable" && p != "/x" {
+				if b == "resize-beyond-max" && p != "/r" || b == "resize-not-resizable" && p != "/x" || p == "/u" && !strings.HasPrefix(b, "resize") && !strings.HasPrefix(b, "write") {
 					continue
 				}
 				if b == "mkgroup-over-dataset-name" && k != "dataset" || b == "mkgroup-duplicate" && k != "group" {
@@ -239,7 +244,7 @@ func TestVerif_C16(t *testing.T) {
 			vfOp{Op: "hardlink", Path: "/lx2", Target: "/x"}, vfOp{Op: "attr", Path: "/x", Name: "t", Value: "u8"})
 		return out
 	}
-	r.Rule(fmt.Sprintf("states = every valid prefix of length <= %d over 9 valid operations plus capacity-adjacent states (group with 32 entries, name heap nearly full, root name heap with room for exactly the follow-up name, dense attributes, header nearly full); for each state every call of the failing-call catalogue (%d kinds, aimed at each existing object) and 4 capacity probes, followed by each of 13 valid follow-ups (8 single calls, 5 two-call sequences on the object the failing call was aimed at); when the call returned an error the closed file must dump equal to the run without the call, the follow-up must return the same, nothing may panic, Close x3 must return nil; non-trivial = the candidate call returned an error", depth, len(vfBadCalls)))
+	r.Rule(fmt.Sprintf("states = every valid prefix of length <= %d over 9 valid operations plus capacity-adjacent states (group with 32 entries, name heap nearly full, root name heap with room for exactly the follow-up name, dense attributes, header nearly full, a chunked dataset with an unlimited maximum); for each state every call of the failing-call catalogue (%d kinds, aimed at each existing object) and 4 capacity probes, followed by each of 15 valid follow-ups (9 single calls, 6 two-call sequences on the object the failing call was aimed at); when the call returned an error the closed file must dump equal to the run without the call, the follow-up must return the same, nothing may panic, Close x3 must return nil; non-trivial = the candidate call returned an error", depth, len(vfBadCalls)))
 	type job struct {
 		s []vfOp
 		f vfOp
